@@ -569,7 +569,7 @@ class Eval:
                         if lab is not None and lab != keep_label:
                             self.dead.add((b, tgt, lab))
                     return
-        if d is None or d.op != "discr":
+        if d is None or d.op != "discr" or not self.assume:
             return
         root = place_root(d.a[0])
         if root is None or root not in self.assume:
@@ -686,8 +686,9 @@ class Eval:
                 self.write_place(t["dest"], val, st)
         elif k == "switch":
             self.switch[b] = self.value_of(self.operand(t["discr"], st), st)
-            if self.assume:
-                self._apply_assumption(b, t)
+            # constant conditions are folded always (a helper spliced into its caller with a literal `true` / `false`
+            # argument, a `match` on a freshly built variant); assumptions on scheme roots only when given
+            self._apply_assumption(b, t)
         elif k == "assert":
             self.asserts[b] = (
                 self.value_of(self.operand(t["cond"], st), st),
